@@ -50,7 +50,7 @@ def gen_top(tape):
     if k in ("TFR", "E2O"):
         return [k, tape.choice("config", ("extended", "testtools", "2.7", "2.6", "twisted"), "flavour")]
     if k == "stack":
-        return [k, pl.gen_stack(tape, allow_bytest=False)]
+        return [k, pl.gen_stack(tape, allow_bytest=False, allow_tfr=True)]
     return [k]
 
 
@@ -122,6 +122,7 @@ def run_one(tape, opts):
         return fl in ("extended", "testtools", "stream", "dicts")
 
     rep = pl.Reporter(result, hist)
+    rep.reuse_tag_sets = tape.chance("config", 1, 3, "reporter-reuses-tag-sets")
     model = pl.TagModel()                       # the reporter's view
     top_model = pl.TagModel()                   # what the reporter-side object should report (incl. its own Tagger layers)
     obs_models = {name: pl.TagModel() for name, fl, tg in observers}
@@ -175,6 +176,9 @@ def run_one(tape, opts):
                 break
     finally:
         vclock.uninstall()
+    if rep.mutated_args:
+        c, before, after = rep.mutated_args[0]
+        out.violate("caller-arg-mutated", f"{k}:tags-arguments", f"{top}: the sets passed to {c} were changed from {before} to {after}")
     # 2. tags observed by wrapped targets at each outcome
     if not aborted:
         for name, fl, tg in observers:
